@@ -54,6 +54,29 @@ Proof.
   cbn [filter]. destruct (N.eqb_spec ch (nth p d 0)) as [E|_]; [now symmetry in E|]. reflexivity.
 Qed.
 
+(* [nb_suffix d p ch] is a suffix of [neighbors d] (the whole of it at (0, 0), nothing past the end) *)
+Lemma brange_suffix ch : exists pre, [0; 1; 2; 3] = pre ++ brange ch.
+Proof.
+  destruct (N.lt_ge_cases ch 4) as [H|H].
+  - destruct (lt4_cases ch H) as [->|[->|[->| ->]]];
+      [exists []|exists [0]|exists [0; 1]|exists [0; 1; 2]]; reflexivity.
+  - exists [0; 1; 2; 3]. rewrite brange_ge4 by exact H. reflexivity.
+Qed.
+Lemma nb_suffix_is_suffix d p ch : exists pre, neighbors d = pre ++ nb_suffix d p ch.
+Proof.
+  destruct (Nat.lt_ge_cases p (length d)) as [Hp|Hp].
+  - unfold nb_suffix. rewrite (proj2 (Nat.ltb_lt _ _) Hp). unfold neighbors.
+    assert (E : seq 0 (length d) = seq 0 p ++ p :: seq (S p) (length d - S p)).
+    { replace (length d) with (p + S (length d - S p))%nat at 1 by lia. now rewrite seq_app. }
+    rewrite E, flat_map_app. cbn [flat_map].
+    destruct (brange_suffix ch) as (pre0 & Hpre0).
+    unfold neighbors_at at 2. unfold other_bases. rewrite Hpre0, filter_app, map_app.
+    exists (flat_map (neighbors_at d) (seq 0 p)
+            ++ map (fun x => upd p d x) (filter (fun x => negb (x =? nth p d 0)) pre0)).
+    now rewrite <- !app_assoc.
+  - exists (neighbors d). rewrite nb_suffix_done by exact Hp. now rewrite app_nil_r.
+Qed.
+
 (* ------------------------------------------------------------------ one call of next() *)
 Definition nb_mk (s : N) (p : nat) (ch : N) : nb_state := {| nb_src := s; nb_pos := p; nb_char := ch |}.
 Definition nb_measure (K p : nat) (ch : N) : nat := (5 * (K - p) - N.to_nat ch)%nat.
